@@ -46,7 +46,8 @@ Inductive logitem :=
 (* classification markers of the three situations in which halmos is known to deviate *)
 | LStaticValueCall               (* CALL with non-zero value inside a static frame *)
 | LCallcodeFunds                 (* CALLCODE with value > balance *)
-| LRetcopyZero.                  (* RETURNDATACOPY with size 0 and offset > RETURNDATASIZE *)
+| LRetcopyZero                   (* RETURNDATACOPY with size 0 and offset > RETURNDATASIZE *)
+| LDepthNoCode.                  (* call of an address without account at the depth limit *)
 
 Inductive sres := SOk (ret : list Z) (w : world) | SRevert (ret : list Z) | SHalt.
 
@@ -59,6 +60,9 @@ Definition blen (l : list Z) : Z := Z.of_nat (length l).
 (* a transfer of 0 changes nothing *)
 Definition xfer (w : world) (from to v : Z) : world :=
   if v =? 0 then w else transfer w from to v.
+
+(* paying 0 is always possible *)
+Definition can_pay (w : world) (a v : Z) : bool := (v =? 0) || (v <=? get_balance w a).
 
 Definition set_storage (w : world) (a k v : Z) : world :=
   mkWorld (w_code w) (sstore_of (w_storage w) a k v) (w_transient w) (w_balance w).
@@ -137,8 +141,9 @@ Fixpoint sexec (s : script) (c : fctx) (w : world) (ctr : Z) (ob rd : list Z) {s
       if is_kcall kd && c_static c && negb (v =? 0) then
         (SHalt, ctr, [LStaticValueCall; LEnd FHalt])
       else if MAX_DEPTH <? c_depth c + 1 then
-        sexec rest c w ctr (after_call ob 0 [] rsz []) []
-      else if carries_value kd && (get_balance w (c_this c) <? v) then
+        let '(r, ctr', lg) := sexec rest c w ctr (after_call ob 0 [] rsz []) [] in
+        (r, ctr', (if has_account w to then [] else [LDepthNoCode]) ++ lg)
+      else if carries_value kd && negb (can_pay w (c_this c) v) then
         let '(r, ctr', lg) := sexec rest c w ctr (after_call ob 0 [] rsz []) [] in
         (r, ctr', (if is_kcallcode kd then [LCallcodeFunds] else []) ++ lg)
       else
@@ -161,7 +166,7 @@ Fixpoint sexec (s : script) (c : fctx) (w : world) (ctr : Z) (ob rd : list Z) {s
       else
         let ctr0 := ctr + 1 in
         let new := CREATE_BASE + ctr0 in
-        if (MAX_DEPTH <? c_depth c + 1) || (get_balance w (c_this c) <? v) || has_account w new then
+        if (MAX_DEPTH <? c_depth c + 1) || negb (can_pay w (c_this c) v) || has_account w new then
           sexec rest c w ctr0 (after_create ob 0 []) []
         else
           let w1 := xfer (new_account w new) (c_this c) new v in
@@ -203,7 +208,7 @@ Fixpoint supported (s : script) : bool :=
   end.
 
 Definition is_marker (l : logitem) : bool :=
-  match l with LStaticValueCall | LCallcodeFunds | LRetcopyZero => true | _ => false end.
+  match l with LStaticValueCall | LCallcodeFunds | LRetcopyZero | LDepthNoCode => true | _ => false end.
 Definition clean (lg : list logitem) : bool := forallb (fun l => negb (is_marker l)) lg.
 
 (* sum of the balances of a list of addresses *)
